@@ -11,7 +11,6 @@
  * Whole-file unit: the real vgp.c is included below.  atom.c and tbbt.c are trusted finite maps
  * (three id slots; file id -> vfile_t; ref -> instance for the existing and for the created group).
  */
-#define H4V_LOOPS_vgp_life /* see loops/vgp_life.loops (vpackvg) */
 #include "h4v.h"
 #include "h4v_err.h"
 #include "hfile_priv.h"
@@ -220,7 +219,7 @@ strcpy(char *dst, const char *src)
 {
     size_t n = (g_vg != NULL && src == g_vg->vgclass) ? g_clen : g_nlen;
     __CPROVER_assert(__CPROVER_w_ok(dst, n + 1), "H4V: strcpy: destination holds the string and its terminator");
-    __CPROVER_havoc_slice(dst, n + 1);
+    dst[n] = '\0'; /* the other n bytes: whatever the (havocked) buffer holds */
     return dst;
 }
 #endif
@@ -235,10 +234,24 @@ strcpy(char *dst, const char *src)
 #define LV_ENV                                                                                                    \
     (g_frec != NULL && g_vf != NULL && g_v != NULL && g_vg != NULL && g_v->vg == g_vg && LV_VG_WF(g_vg) && g_vg->f == L_FID &&    \
      g_v->key == (int32)g_vg->oref && g_v->nattach >= 0 && g_v->nattach < 1000)
+/* established by Vattach (C14 clause of its contract): a group of a file opened read-only is never attached "w" */
+#define LV_W_INV (g_vg->access != 'w' || (g_frec->access & DFACC_WRITE))
 /* record length of the file format (vpackvg) for name lengths nl, cl */
 #define LV_RECLEN(vg, nl, cl)                                                                                     \
     (2 + 4 * (int32)(vg)->nvelt + 2 + (int32)(nl) + 2 + (int32)(cl) + 4 +                                         \
      ((vg)->flags ? 4 + (((vg)->flags & VG_ATTR_SET) ? 4 + 4 * (vg)->nattrs : 0) : 0) + 4 + 1)
+
+/* ------------------------------------------------------------------ vpackvg (any size; position bookkeeping only)
+   Given a buffer of the size Vdetach computes, the record is written inside it and *size is the
+   record length of the file format.  (Content: obligations vg_roundtrip_* and the histories.) */
+#define LV_NEED(vg, nl, cl) (sizeof(VGROUP) + (nl) + (cl) + (size_t)(vg)->nvelt * 4 + (size_t)(vg)->nattrs * sizeof(vg_attr_t) + 1)
+int vpackvg(VGROUP *vg, uint8 buf[], int32 *size)
+    __CPROVER_requires(vg != NULL && vg == g_vg && LV_VG_WF(vg) && size != NULL && buf != NULL)
+    __CPROVER_requires(g_nlen <= 65535 && g_clen <= 65535 && (vg->vgname != NULL || g_nlen == 0) && (vg->vgclass != NULL || g_clen == 0))
+    __CPROVER_requires(__CPROVER_w_ok(buf, LV_NEED(vg, g_nlen, g_clen)))
+    __CPROVER_assigns(__CPROVER_object_whole(buf), *size, vg->version)
+    __CPROVER_ensures(__CPROVER_return_value == SUCCEED && *size == LV_RECLEN(vg, g_nlen, g_clen))
+    __CPROVER_ensures(vg->version == ((vg->flags && __CPROVER_old(vg->version) < VSET_NEW_VERSION) ? VSET_NEW_VERSION : __CPROVER_old(vg->version)));
 
 /* ------------------------------------------------------------------ Vdetach (single call)
    Environment: the group is attached under id L_ID0 (slot 0 live or already removed = stale id);
@@ -251,7 +264,7 @@ strcpy(char *dst, const char *src)
 #define LV_C16(ret) 1
 #endif
 int32 Vdetach(int32 vkey)
-    __CPROVER_requires(LV_ENV && g_v->nattach >= 1 && g_obj0 == (void *)g_v && g_reg_n == 1 && !g_live1 && !g_live2)
+    __CPROVER_requires(LV_ENV && LV_W_INV && g_v->nattach >= 1 && g_obj0 == (void *)g_v && g_reg_n == 1 && !g_live1 && !g_live2)
     __CPROVER_requires(g_put_n == 0 && g_rem_n == 0 && g_reuse_n == 0 && g_chk_n == 0 && g_seq == 0 && g_io_failed == 0)
     __CPROVER_requires(g_nlen <= 65535 && g_clen <= 65535 && (g_vg->vgname != NULL || g_nlen == 0) &&
                        (g_vg->vgclass != NULL || g_clen == 0))
@@ -444,8 +457,14 @@ lv_mk_env(int small)
         g_vg->tag = vg_tag;
         g_vg->ref = vg_ref;
     }
-    LV_BUF(vg_attr_t, vg_alist, vg_nattrs + 1);
-    g_vg->alist   = vg_alist;
+    if (small) {
+        H4V_ND_BUF(uint32, vg_al, 2, 2); /* two attribute entries (atag, aref) */
+        g_vg->alist = (vg_attr_t *)vg_al;
+    }
+    else {
+        LV_BUF(vg_attr_t, vg_alist, vg_nattrs + 1);
+        g_vg->alist = vg_alist;
+    }
     g_vg->nvelt   = vg_nvelt;
     g_vg->msize   = vg_msize;
     g_vg->otag    = vg_otag;
@@ -469,8 +488,16 @@ lv_mk_env(int small)
     vgroup_free_list     = NULL;
     vginstance_free_list = NULL;
     /* the I/O buffer of vgp.c: absent, or some buffer of the recorded size */
+    if (small) {
+        /* histories: a buffer left by an earlier detach that is large enough for the small groups used there (the
+           re-allocation path is covered by the single-call contract); constant size keeps the byte-wise comparison cheap */
+        LV_BUF(uint8, vgb, 256);
+        Vgbuf     = vgb;
+        Vgbufsize = 256;
+        return;
+    }
     H4V_ND(uint32, vgbufsize);
-    H4V_ASSUME(vgbufsize <= 600000);
+    H4V_ASSUME(vgbufsize <= 800000u);
     if (vgbufsize == 0) {
         Vgbuf     = NULL;
         Vgbufsize = 0;
@@ -492,21 +519,19 @@ lv_attached(int n, int live)
     g_reg_n      = 1;
 }
 
-void
-h_Vdetach(void)
+/* the two names of g_vg: absent or strings of length g_nlen / g_clen */
+static void
+lv_mk_names(void)
 {
-    lv_mk_env(0);
-    H4V_ASSUME(g_vf_ok);
-    H4V_ND(int, v_nattach);
-    H4V_ND(int, id_live);
-    H4V_ASSUME(v_nattach >= 1 && v_nattach < 1000 && (id_live == 0 || id_live == 1));
-    lv_attached(v_nattach, id_live);
     /* the two names: absent or abstract strings of length g_nlen / g_clen (-DLIFE_ABS_STR) */
     H4V_HAVOC(size_t, g_nlen);
     H4V_HAVOC(size_t, g_clen);
     H4V_ASSUME(g_nlen <= 65535 && g_clen <= 65535);
     H4V_ND(int, has_name);
     H4V_ND(int, has_class);
+#ifdef LV_SMALL /* the bounded twin: loops of vpackvg unwound */
+    H4V_ASSUME(g_vg->nvelt <= 3 && g_vg->msize <= 4 && g_vg->nattrs <= 2);
+#endif
 #if defined(H4V_CBMC) && defined(LIFE_ABS_STR) && !defined(H4V_CEX)
     if (has_name) {
         LV_BUF(char, nm, g_nlen + 1);
@@ -542,6 +567,19 @@ h_Vdetach(void)
     else
         g_clen = 0;
 #endif
+}
+
+void
+h_Vdetach(void)
+{
+    lv_mk_env(0);
+    H4V_ASSUME(g_vf_ok);
+    H4V_ND(int, v_nattach);
+    H4V_ND(int, id_live);
+    H4V_ASSUME(v_nattach >= 1 && v_nattach < 1000 && (id_live == 0 || id_live == 1));
+    lv_attached(v_nattach, id_live);
+    H4V_ASSUME(LV_W_INV);
+    lv_mk_names();
     H4V_ND(int, has_old_alist);
     if (has_old_alist) {
         LV_BUF(vg_attr_t, oal, 2);
@@ -559,6 +597,26 @@ h_Vdetach(void)
     H4V_COVER(g_io_failed, "Vdetach write-back fails");
     H4V_COVER(r == SUCCEED && g_put_n == 1 && g_nlen > 64 && g_clen > 0 && (g_vg->flags & VG_ATTR_SET) && g_vg->nattrs > 1, "Vdetach long name and attributes");
     H4V_CANARY("Vdetach end");
+}
+
+void
+h_vpackvg(void)
+{
+    lv_mk_env(0);
+    lv_mk_names();
+    size_t need = LV_NEED(g_vg, g_nlen, g_clen);
+    H4V_ND(size_t, extra);
+    H4V_ASSUME(extra <= 1000);
+    LV_BUF(uint8, buf, need + extra);
+    int32 size = -1;
+    int   r    = vpackvg(g_vg, buf, &size);
+#ifndef LV_SMALL
+    H4V_COVER(r == SUCCEED && g_vg->nvelt > 100 && g_nlen > 64 && (g_vg->flags & VG_ATTR_SET) && g_vg->nattrs > 2, "vpackvg large group");
+#else
+    H4V_COVER(r == SUCCEED && g_vg->nvelt == 3 && g_nlen == 2 && (g_vg->flags & VG_ATTR_SET) && g_vg->nattrs == 2, "vpackvg full small group");
+#endif
+    H4V_COVER(r == SUCCEED && g_vg->nvelt == 0 && g_vg->flags == 0, "vpackvg empty old-style group");
+    H4V_CANARY("vpackvg end");
 }
 
 void
